@@ -3,6 +3,7 @@
    Lex_Lemmas.v.  Everything works on BYTES: columns and offsets count bytes,
    exactly like StrIter::next. *)
 From Ucg Require Import base.Bytes lex.Lex_Types lex.Vocab.
+From UcgGen Require Import LexVocab.
 
 (* ---------- position tracking: abortable_parser::iter::StrIter::next ---------- *)
 Record pos_state := { p_line : N; p_col : N; p_off : N }.
@@ -155,13 +156,20 @@ Definition run_rec (r : recogniser) (s : bytes) : rres :=
       end
   | RTextWS ty lit =>
       let l := b lit in
+      (* do_text_token_tok!(ty, lit, WS): the literal must be followed by whitespace or a
+         comment.  With `peek!(either!(whitespace, comment))` (kw_lookahead_only = true, the
+         current source) that text is only looked at and left for the main loop; with the bare
+         `either!(whitespace, comment)` (false, the source before commit b648ec7) it is consumed
+         by the keyword recogniser. *)
       match strip_prefix l s with
       | Some r1 =>
           match ws_run r1 with
-          | Some (k, rest) => RComplete ty l (l ++ k) rest
+          | Some (k, rest) =>
+              if kw_lookahead_only then RComplete ty l l r1 else RComplete ty l (l ++ k) rest
           | None =>
               match comment_run r1 with
-              | Some (_, k, rest) => RComplete ty l (l ++ k) rest
+              | Some (_, k, rest) =>
+                  if kw_lookahead_only then RComplete ty l l r1 else RComplete ty l (l ++ k) rest
               | None => RFail
               end
           end
